@@ -1,6 +1,8 @@
 package main
 
 import (
+	"context"
+	"encoding/json"
 	"fmt"
 	"math/rand"
 	"reflect"
@@ -23,6 +25,9 @@ import (
 	"github.com/kubeflow/katib/pkg/controller.v1beta1/experiment/manifest"
 	experimentutil "github.com/kubeflow/katib/pkg/controller.v1beta1/experiment/util"
 	"github.com/kubeflow/katib/pkg/webhook/v1beta1/experiment/validator"
+	expwebhook "github.com/kubeflow/katib/pkg/webhook/v1beta1/experiment"
+	admissionv1 "k8s.io/api/admission/v1"
+	"sigs.k8s.io/controller-runtime/pkg/webhook/admission"
 )
 
 const fullKatibConfig = `
@@ -55,6 +60,8 @@ var (
 	valClient client.Client
 	valScheme *runtime.Scheme
 	theVal    validator.Validator
+	// the same validator over a katib-config from which the `random` algorithm has been removed since the Experiment was created
+	theValChanged validator.Validator
 )
 
 func getValidator() validator.Validator {
@@ -65,6 +72,9 @@ func getValidator() validator.Validator {
 		cm := &corev1.ConfigMap{ObjectMeta: metav1.ObjectMeta{Name: "katib-config", Namespace: "kubeflow"}, Data: map[string]string{"katib-config.yaml": fullKatibConfig}}
 		valClient = fake.NewClientBuilder().WithScheme(valScheme).WithObjects(cm).Build()
 		theVal = validator.New(manifest.New(valClient))
+		cm2 := cm.DeepCopy()
+		cm2.Data = map[string]string{"katib-config.yaml": strings.Replace(fullKatibConfig, "  - algorithmName: random\n    image: img/random\n", "", 1)}
+		theValChanged = validator.New(manifest.New(fake.NewClientBuilder().WithScheme(valScheme).WithObjects(cm2).Build()))
 	})
 	return theVal
 }
@@ -309,6 +319,11 @@ func init() {
 			c.ParallelTrialCount, c.MaxTrialCount, c.MaxFailedTrialCount = nil, nil, nil
 			return c
 		}
+		if rng.Intn(8) == 0 {
+			// the environment changed since creation: katib-config no longer offers the experiment's algorithm
+			v = theValChanged
+			tags = append(tags, "algorithm-removed-from-katib-config-since-creation")
+		}
 		restEq := equality.Semantic.DeepEqual(*zero(nw), *zero(old))
 		restartable := experimentutil.IsCompletedExperimentRestartable(old)
 		var createOk bool
@@ -326,6 +341,26 @@ func init() {
 			e1, e2, e3 = errKinds(errs)
 			admitted = len(errs) == 0
 			impl = fmt.Sprintf("e1=%s e2=%s e3=%s admitted=%s", b01(e1), b01(e2), b01(e3), b01(admitted))
+			// the same update as an admission request through the webhook handler: the stored object is the request's OldObject,
+			// whatever (older) copy the handler's own client would return
+			if v == theVal && !undefaulted {
+				stale := old.DeepCopy()
+				stale.Status = experimentsv1beta1.ExperimentStatus{}
+				cl := fake.NewClientBuilder().WithScheme(valScheme).WithObjects(
+					&corev1.ConfigMap{ObjectMeta: metav1.ObjectMeta{Name: "katib-config", Namespace: "kubeflow"}, Data: map[string]string{"katib-config.yaml": fullKatibConfig}}, stale,
+					&corev1.Namespace{ObjectMeta: metav1.ObjectMeta{Name: old.Namespace, Labels: map[string]string{"katib.kubeflow.org/metrics-collector-injection": "enabled"}}}).Build()
+				h := expwebhook.NewExperimentValidator(cl, admission.NewDecoder(valScheme))
+				nj, _ := json.Marshal(nw)
+				oj, _ := json.Marshal(old)
+				resp := h.Handle(context.TODO(), admission.Request{AdmissionRequest: admissionv1.AdmissionRequest{Namespace: old.Namespace, Name: old.Name,
+					Operation: admissionv1.Update, Object: runtime.RawExtension{Raw: nj}, OldObject: runtime.RawExtension{Raw: oj}}})
+				if resp.Allowed != admitted {
+					impl += " WEBHOOK=" + map[bool]string{true: "allowed", false: "denied"}[resp.Allowed] + "-but-validator-said-otherwise"
+					tags = append(tags, "webhook-differs")
+				} else {
+					tags = append(tags, "webhook-agrees")
+				}
+			}
 		}()
 		if admitted {
 			tags = append(tags, "admitted")
